@@ -129,6 +129,10 @@ func LdRead(r *bufio.Reader) ([]byte, error) {
 
 	buf := make([]byte, l)
 	if _, err := io.ReadFull(r, buf); err != nil {
+		if err == io.EOF {
+			// The length prefix promised l > 0 more bytes; ending here is not a clean EOF.
+			err = io.ErrUnexpectedEOF
+		}
 		return nil, err
 	}
 
